@@ -238,7 +238,7 @@ def solo_witnesses(out, me, tag="WITNESS"):
     return res
 
 
-def solo_mc(ctx, name, info, me, maxround, envvalues, weak=(), view=True, invariants=None, noenv=(), witness_k=0):
+def solo_mc(ctx, name, info, me, maxround, envvalues, weak=(), view=True, invariants=None, noenv=(), witness_k=0, constraint=None):
     adv = [n for n in info["names"] if n != me]
     d = ctx.spec_copy()
     names = info["names"]
@@ -258,6 +258,8 @@ def solo_mc(ctx, name, info, me, maxround, envvalues, weak=(), view=True, invari
         lines.append("INVARIANTS " + " ".join(invs))
     if view:
         lines.append("VIEW View")
+    if constraint:
+        lines.append("CONSTRAINT " + constraint)
     with open(os.path.join(d, name + ".cfg"), "w") as f:
         f.write("\n".join(lines) + "\n")
     return name
